@@ -2,7 +2,7 @@
    (any sequence of BIO calls, results and errors), for every oracle script of the operating system.
    What is NOT proved here: that OpenSSL encrypts and completes handshakes — the engine is an oracle (see DESIGN.md);
    the handshake's progress in driver mode is decided by the correspondence check's liveness monitor (gen/c18.py). *)
-From SP Require Import Base ListAux Os OsLemmas WaitModel WaitLemmas SocketModel Objects DriverModel TlsModel TlsLemmas TlsEmits TlsBracket TlsInterest Sim.
+From SP Require Import Base ListAux Os OsLemmas WaitModel WaitLemmas SocketModel Objects DriverModel TlsModel TlsLemmas TlsEmits TlsBracket TlsInterest TlsComplete Sim.
 Local Open Scope Z_scope.
 
 Local Notation os := (os ext).
@@ -175,6 +175,23 @@ Theorem known_interest_is_polled : forall t events e,
   (e = E_WANT_READ -> has_bit (snd (tls_query t events)) POLLOUT = false).
 Proof. exact TlsInterest.known_interest_is_polled. Qed.
 
+(* C01's clause for TLS (finding F10): Write() stops short only when a wait said "not yet", and a wait says so only when a
+   poll returned 0 — which a poll without time limit never does. On a script in which no poll returns 0 (for an unlimited Send:
+   an honest kernel) every Send returns its full size, however many records it takes. *)
+Theorem tls_send_complete : forall k size T (s : os) n s',
+  never_idle (o_script s) -> tls_send k size T s = (Ok n, s') -> n = size.
+Proof. exact TlsComplete.tls_send_complete. Qed.
+
+(* non-vacuity: 40000 bytes = three records in one Send, the handshake on the way *)
+Example tls_three_records :
+  let tr := run_case [(80, [1]); (23, [1; 40000; -1])]
+                     [(8, [2; 4; 2; 120; 1; 900; 2; 60; 2; 16406; 16384; 0; 1]); (2, [1; 0; 2000000; 4]); (3, [120; 0]); (2, [1; 0; 0; 1]);
+                      (4, [900; 0]); (2, [1; 0; 0; 4]); (3, [60; 0]); (2, [1; 0; 2000000; 4]); (3, [16406; 0]);
+                      (8, [2; 1; 2; 16406; 16384; 0; 1]); (2, [1; 0; 2000000; 4]); (3, [16406; 0]);
+                      (8, [2; 1; 2; 7254; 7232; 0; 1]); (2, [1; 0; 0; 4]); (3, [7254; 0])] [] in
+  In (K_RET, [23; 1; 40000]) tr /\ In (K_ENG, [2; 7232; 7232; 0; 1]) tr.
+Proof. vm_compute. split; tauto. Qed.
+
 (* non-vacuity: a client that sends 5 bytes with unlimited time-out: handshake flights, then the record *)
 Example tls_client_send :
   let tr := run_case [(80, [1]); (23, [1; 5; -1])]
@@ -202,3 +219,4 @@ Print Assumptions receive_now_keeps_the_interest.
 Print Assumptions send_some_keeps_the_interest.
 Print Assumptions pending_keeps_the_interest.
 Print Assumptions known_interest_is_polled.
+Print Assumptions tls_send_complete.
